@@ -26,7 +26,7 @@ META = {
         "coordinates in [-4, 4]",
     ],
     "stubs": ["np.argsort / np.any / np.argmax on symbolic data: comparison-driven (forks)"],
-    "outside": ["ismember_columns, intersect_sets (integer np.unique / KD-tree kernels)",
+    "outside": ["intersect_sets (KD-tree kernel); ismember_columns is covered by plain enumeration of 2x2 integer column sets (stated as such)",
                 "more points / dimensions than the stated bound"],
 }
 
@@ -36,7 +36,11 @@ def shards(tier, seed):
         cfgs = [(2, 1), (3, 1), (2, 2)]
     else:
         cfgs = [(2, 1), (3, 1), (2, 2), (4, 1)]
-    return [{"N": n, "D": d} for n, d in cfgs]
+    out = [{"N": n, "D": d} for n, d in cfgs]
+    # membership of integer columns: the inputs are integer arrays consumed by np.unique (no symbolic
+    # content is possible), so this clause is checked by plain ENUMERATION against a brute-force comparison
+    out.append({"kind": "ismember", "values": [-1, 0, 2] if tier == "quick" else [-2, -1, 0, 3]})
+    return out
 
 
 def configure(cfg, tier):
@@ -109,7 +113,49 @@ def harness(ctx, N, D):
         ctx.sample({"N": N, "D": D, "path": ctx.idx, "old_2_new": old_2_new, "new_2_old": new_2_old})
 
 
+def _ismember_problems(values, limit=4):
+    import itertools
+
+    import porepy as pp
+
+    problems = []
+    cols = [np.array(c).reshape(2, 2) for c in itertools.product(values, repeat=4)]
+    n = 0
+    for a in cols:
+        for b in cols:
+            for sort in (True, False):
+                n += 1
+                try:
+                    mask, ind = pp.array_operations.ismember_columns(a, b, sort=sort)
+                except Exception as e:  # noqa: BLE001
+                    problems.append(f"a={a.tolist()} b={b.tolist()} sort={sort}: raised {type(e).__name__}")
+                    continue
+                ka = [tuple(sorted(c)) if sort else tuple(c) for c in a.T.tolist()]
+                kb = [tuple(sorted(c)) if sort else tuple(c) for c in b.T.tolist()]
+                want = [k in kb for k in ka]
+                ind = np.atleast_1d(np.asarray(ind, dtype=int))
+                ok = list(map(bool, np.atleast_1d(mask))) == want and len(ind) == sum(want) and all(
+                    kb[j] == k for j, k in zip(ind.tolist(), [k for k, w in zip(ka, want) if w]))
+                if not ok:
+                    problems.append(f"ismember_columns(a={a.tolist()}, b={b.tolist()}, sort={sort}) = "
+                                    f"({np.atleast_1d(mask).tolist()}, {ind.tolist()}), brute force mask {want}")
+                if len(problems) >= limit:
+                    return problems, n
+    return problems, n
+
+
+def h_ismember(ctx, shard):
+    case = lambda conc: {"kind": "ismember", "values": shard["values"]}  # noqa: E731
+    probs, n = _ismember_problems(shard["values"])
+    ctx.check("ismember_columns-agrees-with-brute-force (enumerated integer columns incl. negative entries)", not probs, case)
+    ctx.reach("end")
+    ctx.sample({"kind": "ismember", "pairs_enumerated": n})
+
+
 def run_shard(ex, shard):
+    if shard.get("kind") == "ismember":
+        ex.run(h_ismember, label="ismember", args=(shard,))
+        return
     ex.run(harness, label=f"N{shard['N']}D{shard['D']}", args=(shard["N"], shard["D"]))
 
 
@@ -122,6 +168,10 @@ def concrete_run(case):
 
 def replay_case(case):
     import porepy as pp
+
+    if case.get("kind") == "ismember":
+        probs, _ = _ismember_problems(case["values"], limit=2)
+        return (True, "; ".join(probs)) if probs else (False, "agrees")
 
     P = np.array(case["points"], dtype=float)
     tol = float(case["tol"])
